@@ -244,6 +244,11 @@ def one_table(ctx, world, tno, forced=None):
                         tt = tree_of(ad_loaded_type(load_tn, type_changed, ad))
                         toks = cc.to_tokens(local_world(world, ir), tt, d)
                         impl.append("val " + " ".join(toks))
+                        # the iteration order of Python's sets/dicts is the
+                        # implementation's choice: report it to the model
+                        # (the read line above validates it as set-equal)
+                        lines.append("setdata " + " ".join(toks))
+                        impl.append("ok")
                     except Exception as e:   # noqa
                         impl.append("val ?:" + type(e).__name__)
                     script.append("read")
@@ -360,6 +365,20 @@ def one_table(ctx, world, tno, forced=None):
     return True
 
 
+def same_obs(a, b):
+    """observations that differ only in set / mapping element order, or that
+    lie outside the model's strict reads"""
+    if a.startswith("val ?") or b.startswith("err:decode"):
+        return True
+    if a.startswith("val ") and b.startswith("val "):
+        try:
+            return (cc.nan_normalise(cc.canon(a.split(" ")[1:]))
+                    == cc.nan_normalise(cc.canon(b.split(" ")[1:])))
+        except Exception:   # noqa
+            return False
+    return False
+
+
 def ad_loaded_type(load_tn, type_changed, ad):
     return load_tn
 
@@ -457,8 +476,7 @@ def run(ctx):
         # known-finding probe K4 (deterministic)
         ctx.tie = core.BatchTie(
             ctx, "auxtable", "auxtable",
-            skip=lambda a, b: a.startswith("val ?") or
-            b.startswith("err:decode"))
+            skip=same_obs)
         # deterministic probe of the known finding K4
         one_table(ctx, world, -1, forced=(
             "partial", "tuple<set<uint8_t>,sequence<foo>>",
